@@ -539,3 +539,57 @@ func r17BorrowedReaderNotClosed(c *cx, id string) {
 	}
 	c.r.Floor(id, "error decoders of package stanza", n, 2)
 }
+
+// r17FoundErrorNotOverwritten (C04.17): once a negotiation step has found an
+// error (the code is on a path behind `err != nil`), that error is what the
+// step returns: the variable is not assigned the result of another call that
+// does not take it as an argument. "Open our own stream first, so that the
+// error can be delivered" written as `err = Send(...)` replaces the header
+// error by the nil of a successful Send: the negotiation goes on as if the
+// header had been fine.
+func r17FoundErrorNotOverwritten(c *cx, id string, fns []*eng.Fn) int {
+	n := 0
+	for _, f := range fns {
+		g := f.Graph()
+		f.WalkBody(func(nd ast.Node) bool {
+			as, ok := nd.(*ast.AssignStmt)
+			if !ok || as.Tok != token.ASSIGN || len(as.Rhs) != 1 {
+				return true
+			}
+			if _, isCall := ast.Unparen(as.Rhs[0]).(*ast.CallExpr); !isCall {
+				return true
+			}
+			pt, ok := g.Where(as)
+			if !ok {
+				return true
+			}
+			for _, l := range as.Lhs {
+				v := g.LocalVar(l)
+				if v == nil || !isErrorType(v.Type()) {
+					continue
+				}
+				mentions := false
+				ast.Inspect(as.Rhs[0], func(x ast.Node) bool {
+					if idn, ok := x.(*ast.Ident); ok && f.Info().Uses[idn] == types.Object(v) {
+						mentions = true
+					}
+					return !mentions
+				})
+				if mentions {
+					continue // wrapping / conversion of the error itself
+				}
+				n++
+				cur := f.Norm(l, &pt)
+				okd := true
+				if !strings.HasPrefix(cur, "local:") {
+					if dom, _ := g.DominatedAny(pt, []string{"!eq(" + cur + ",nil)"}); dom {
+						okd = false
+					}
+				}
+				c.r.Check(id, f, "assignment to an error variable", "G: an error variable is not given the result of another call on a path on which it is known to hold an error", as.Pos(), okd, "the error of "+cur+" is known to be non-nil here and is replaced by the result of "+f.Prog.NodeStr(as.Rhs[0])+": a failure of the step is turned into the success of the clean-up")
+			}
+			return true
+		})
+	}
+	return n
+}
